@@ -406,6 +406,110 @@ func timerCfg(repo string) (perArm, stopCloses, recheck bool) {
 	return
 }
 
+// ---- ws/websocket.go: design facts of the adapter
+func wsCfg(repo string) (pumpClosesQueue, writeSelectsClose, shutdownAlways, reportIfFirst bool) {
+	f := parse(repo, "ws/websocket.go")
+	// any close(…shipWriteChannel) in the file
+	ast.Inspect(f, func(x ast.Node) bool {
+		if c, ok := x.(*ast.CallExpr); ok && sel(c.Fun) == "close" && len(c.Args) == 1 && sel(c.Args[0]) == "shipWriteChannel" {
+			pumpClosesQueue = true
+		}
+		return true
+	})
+	// Write: select { case queue <- m | case <-closeChannel }
+	if wf := funcDecl(f, "WriteMessageToWebsocketConnection"); wf != nil {
+		ast.Inspect(wf.Body, func(x ast.Node) bool {
+			ss, ok := x.(*ast.SelectStmt)
+			if !ok {
+				return true
+			}
+			hasSend, hasClose := false, false
+			for _, c := range ss.Body.List {
+				cc := c.(*ast.CommClause)
+				if snd, ok := cc.Comm.(*ast.SendStmt); ok && sel(snd.Chan) == "shipWriteChannel" {
+					hasSend = true
+				}
+				if cc.Comm != nil && mentions(cc.Comm, "closeChannel") {
+					if _, isSend := cc.Comm.(*ast.SendStmt); !isSend {
+						hasClose = true
+					}
+				}
+			}
+			writeSelectsClose = hasSend && hasClose
+			return false
+		})
+	}
+	// the once: its body marks closed, closes the close channel and the socket, with no early return;
+	// setConnClosedError is called nowhere else
+	onceFunc := ""
+	onceOK := false
+	setCalls := 0
+	for _, d := range f.Decls {
+		fd, ok := d.(*ast.FuncDecl)
+		if !ok || fd.Body == nil {
+			continue
+		}
+		ast.Inspect(fd.Body, func(x ast.Node) bool {
+			c, ok := x.(*ast.CallExpr)
+			if !ok {
+				return true
+			}
+			if sel(c.Fun) == "setConnClosedError" {
+				setCalls++
+			}
+			if se, ok := c.Fun.(*ast.SelectorExpr); ok && se.Sel.Name == "Do" && sel(se.X) == "shutdownOnce" && len(c.Args) == 1 {
+				if fl, ok := c.Args[0].(*ast.FuncLit); ok {
+					onceFunc = fd.Name.Name
+					hasRet := false
+					ast.Inspect(fl.Body, func(y ast.Node) bool {
+						if _, ok := y.(*ast.ReturnStmt); ok {
+							hasRet = true
+						}
+						return true
+					})
+					closesCh := false
+					ast.Inspect(fl.Body, func(y ast.Node) bool {
+						if cc, ok := y.(*ast.CallExpr); ok && sel(cc.Fun) == "close" && len(cc.Args) == 1 && sel(cc.Args[0]) == "closeChannel" {
+							closesCh = true
+						}
+						return true
+					})
+					onceOK = !hasRet && closesCh && containsCall(fl.Body, "setConnClosedError") && containsCall(fl.Body, "Close")
+				}
+			}
+			return true
+		})
+	}
+	shutdownAlways = onceOK && setCalls == 1
+	// every ReportConnectionError call is guarded by `if <call of the once function>`
+	reportIfFirst = onceFunc != ""
+	var walk func(n ast.Node, guarded bool)
+	walk = func(n ast.Node, guarded bool) {
+		ast.Inspect(n, func(x ast.Node) bool {
+			switch v := x.(type) {
+			case *ast.IfStmt:
+				g := guarded || containsCall(v.Cond, onceFunc)
+				walk(v.Body, g)
+				if v.Else != nil {
+					walk(v.Else, guarded)
+				}
+				return false
+			case *ast.CallExpr:
+				if sel(v.Fun) == "ReportConnectionError" && !guarded {
+					reportIfFirst = false
+				}
+			}
+			return true
+		})
+	}
+	for _, d := range f.Decls {
+		if fd, ok := d.(*ast.FuncDecl); ok && fd.Body != nil {
+			walk(fd.Body, false)
+		}
+	}
+	return
+}
+
 func main() {
 	repo := flag.String("repo", "/repo", "repository root")
 	out := flag.String("out", "", "directory for the generated Lean files (default: print)")
@@ -503,6 +607,10 @@ func main() {
 	{
 		a, b, c := timerCfg(*repo)
 		files["TimerFacts.lean"] = fmt.Sprintf("/- GENERATED by /verif/extract from /repo — do not edit. -/\nimport ShipVerif.Model.Timer\nnamespace ShipVerif.Generated\n\n/-- ship/handshake.go setHandshakeTimer / stopHandshakeTimer: design facts -/\ndef timerCfg : ShipVerif.Timer.Cfg := { perArmChannel := %v, stopCloses := %v, recheck := %v }\n\nend ShipVerif.Generated\n", a, b, c)
+	}
+	{
+		a, b, c, d := wsCfg(*repo)
+		files["WsFacts.lean"] = fmt.Sprintf("/- GENERATED by /verif/extract from /repo — do not edit. -/\nimport ShipVerif.Model.Ws\nnamespace ShipVerif.Generated\n\n/-- ws/websocket.go: design facts -/\ndef wsCfg : ShipVerif.Ws.Cfg := { pumpClosesQueue := %v, writeSelectsClose := %v, shutdownAlways := %v, reportIfFirst := %v }\n\nend ShipVerif.Generated\n", a, b, c, d)
 	}
 	for name, text := range files {
 		if *out == "" {
